@@ -93,6 +93,7 @@ Shapes == {<<1, 1>>, <<1, 2>>, <<2, 1>>}
 Modes  == {"none", "raise", "exit0", "exit1", "kill", "kill_helper_first", "kill_helper_second"}
 \* the same helper deaths on the OTHER host (the one that is to receive a transfer; two-host shapes only)
 RemoteModes == {"kill_remote_helper_first", "kill_remote_helper_second"}
+BusyModes == {"raise_busy_sibling", "raise_busy_deaf_sibling"}
 Places == {<<"t1", "before">>, <<"t1", "between">>, <<"t1", "after">>, <<"t2", "before">>, <<"t2", "after_compute">>}
 Scenarios == {[hosts |-> s[1], workers |-> s[2], mode |-> m, task |-> p[1], point |-> p[2]] :
                  s \in Shapes, m \in Modes \ {"none"}, p \in Places}
@@ -100,12 +101,13 @@ Scenarios == {[hosts |-> s[1], workers |-> s[2], mode |-> m, task |-> p[1], poin
              \cup {[hosts |-> 2, workers |-> 1, mode |-> m, task |-> p[1], point |-> p[2]] : m \in RemoteModes, p \in Places}
              \* one consumer raises while the other one is in the middle of a long computation (its worker does not read
              \* the shutdown message; Executor.terminate has to kill it after its grace period)
-             \cup {[hosts |-> s[1], workers |-> s[2], mode |-> "raise_busy_sibling", task |-> "t2", point |-> "before"] : s \in {<<1, 2>>, <<2, 1>>}}
+             \* ("deaf": that task body has installed its own SIGTERM handler, as numerical libraries and frameworks do)
+             \cup {[hosts |-> s[1], workers |-> s[2], mode |-> m, task |-> "t2", point |-> "before"] : s \in {<<1, 2>>, <<2, 1>>}, m \in BusyModes}
 \* quick tier: one shape per (mode, place) rotated deterministically
-Rank(sc) == (IF sc.mode \in RemoteModes \cup {"raise_busy_sibling"} THEN 0 ELSE CHOOSE i \in 1..7 : SetToSeq(Modes)[i] = sc.mode) + (IF sc.task = "" THEN 0 ELSE CHOOSE i \in 1..5 : SetToSeq(Places)[i] = <<sc.task, sc.point>>)
+Rank(sc) == (IF sc.mode \in RemoteModes \cup BusyModes THEN 0 ELSE CHOOSE i \in 1..7 : SetToSeq(Modes)[i] = sc.mode) + (IF sc.task = "" THEN 0 ELSE CHOOSE i \in 1..5 : SetToSeq(Places)[i] = <<sc.task, sc.point>>)
 ShapeIdx(sc) == CHOOSE i \in 1..3 : SetToSeq(Shapes)[i] = <<sc.hosts, sc.workers>>
-QuickScenarios == {sc \in Scenarios : \/ sc.mode = "raise_busy_sibling"
-                                      \/ sc.mode \notin RemoteModes \cup {"raise_busy_sibling"} /\ (Rank(sc) % 3) + 1 = ShapeIdx(sc) /\ sc.point \in {"", "before", "between", "after"}
+QuickScenarios == {sc \in Scenarios : \/ sc.mode \in BusyModes
+                                      \/ sc.mode \notin RemoteModes \cup BusyModes /\ (Rank(sc) % 3) + 1 = ShapeIdx(sc) /\ sc.point \in {"", "before", "between", "after"}
                                       \/ sc.mode = "kill_remote_helper_second" /\ <<sc.task, sc.point>> \in {<<"t1", "before">>, <<"t1", "after">>, <<"t2", "before">>}
                                       \/ sc.mode = "kill_remote_helper_first" /\ <<sc.task, sc.point>> = <<"t1", "before">>}
 Generate == IF IOEnv.PASS # "generate" THEN TRUE
@@ -113,7 +115,7 @@ Generate == IF IOEnv.PASS # "generate" THEN TRUE
                  JsonSerialize(IOEnv.CASES_FILE, SetToSeq(S))
 
 \* what the property demands of a scenario
-MustFail(sc) == sc.mode \in {"raise", "raise_busy_sibling"} \/ (sc.mode \in {"exit0", "exit1", "kill"} /\ sc.point \in {"before", "between", "after_compute"})
+MustFail(sc) == sc.mode \in {"raise"} \cup BusyModes \/ (sc.mode \in {"exit0", "exit1", "kill"} /\ sc.point \in {"before", "between", "after_compute"})
 Post(sc, ob) ==
      (IF ob.outcome = "hang" THEN {"run_did_not_end"} ELSE {})
 \cup (IF ob.outcome = "ok" /\ MustFail(sc) THEN {"returned_although_output_lost"} ELSE {})
